@@ -253,3 +253,5 @@ Definition spec_parts (c : case) : list bool :=
   [user_ok c true (o_after c); user_ok c (negb (k_inst c)) (o_used c); decl_ok c (o_after c); decl_ok c (o_used c);
    helpers_ok c (o_after c); helpers_ok c (o_used c); spec_names_ok c (o_after c);
    spec_names_ok c (o_used c); private_ok c (o_after c); private_ok c (o_used c); item_rule_ok c].
+Definition spec_fail_bits (c : case) : nat :=
+  fold_right (fun (b : bool) (acc : nat) => (2 * acc + (if b then 0 else 1))%nat) 0%nat (spec_parts c).
